@@ -1,7 +1,508 @@
 package main
 
-import "verif/harness/internal/corr"
+import (
+	"bytes"
+	"fmt"
+	"math/rand"
+	"os"
+	"regexp"
+	"strconv"
+	"strings"
+
+	"github.com/rogpeppe/go-internal/diff"
+
+	"verif/harness/internal/corr"
+	"verif/harness/internal/mdl"
+)
+
+// ---------------------------------------------------------------- cases
+
+type diffCase struct {
+	oldName, newName string
+	old, new         []byte
+	origin           string
+}
+
+func (c *diffCase) enc() string {
+	return "diff " + corr.Hx([]byte(c.oldName)) + " " + corr.Hx([]byte(c.newName)) + " " + corr.Hx(c.old) + " " + corr.Hx(c.new)
+}
+
+func decCase(s string) (*diffCase, error) {
+	f := strings.Fields(s)
+	if len(f) != 5 || f[0] != "diff" {
+		return nil, fmt.Errorf("bad case %q", s)
+	}
+	return &diffCase{string(corr.Unhx(f[1])), string(corr.Unhx(f[2])), corr.Unhx(f[3]), corr.Unhx(f[4]), "replay"}, nil
+}
+
+func safeDiff(c *diffCase) (out []byte, panicked bool) {
+	defer func() {
+		if r := recover(); r != nil {
+			out, panicked = nil, true
+		}
+	}()
+	return diff.Diff(c.oldName, append([]byte{}, c.old...), c.newName, append([]byte{}, c.new...)), false
+}
+
+// textsOver returns every text made of at most maxLines lines over alpha, each with and
+// without the final newline.
+func textsOver(alpha []string, maxLines int) [][]byte {
+	var out [][]byte
+	seen := map[string]bool{}
+	var rec func(cur []string)
+	rec = func(cur []string) {
+		for _, final := range []string{"\n", ""} {
+			t := strings.Join(cur, "\n")
+			if len(cur) > 0 {
+				t += final
+			}
+			if !seen[t] {
+				seen[t] = true
+				out = append(out, []byte(t))
+			}
+		}
+		if len(cur) == maxLines {
+			return
+		}
+		for _, a := range alpha {
+			rec(append(cur[:len(cur):len(cur)], a))
+		}
+	}
+	rec(nil)
+	return out
+}
+
+var syntaxLines = []string{"", "-", "+x", "@@ -1 +1 @@", "\\ No newline at end of file", " ", "}", "--- old", "+++ new", "diff old new", "@@ -1,2 +3,4 @@", "-- ", "+", "\\", "a", "b"}
+var caseNames = []string{"old", "new", "a/b.txt", "x y", "", "%d", "-", "\\ No newline at end of file"}
+
+func randLines(r *rand.Rand, n int, mode int) []string {
+	ls := make([]string, n)
+	for i := range ls {
+		switch mode {
+		case 0: // mostly unique lines, some duplicates
+			if r.Intn(4) == 0 {
+				ls[i] = syntaxLines[r.Intn(len(syntaxLines))]
+			} else {
+				ls[i] = "line " + strconv.Itoa(r.Intn(3*n+1))
+			}
+		case 1: // few distinct lines: almost everything is a duplicate
+			ls[i] = syntaxLines[r.Intn(len(syntaxLines))]
+		case 2: // small numeric vocabulary: many lines unique on one side only
+			ls[i] = strconv.Itoa(r.Intn(n/2 + 2))
+		default: // runs of identical lines with unique separators
+			if r.Intn(5) == 0 {
+				ls[i] = "u" + strconv.Itoa(i)
+			} else {
+				ls[i] = []string{"", "}", "x"}[r.Intn(3)]
+			}
+		}
+	}
+	return ls
+}
+
+func editLines(r *rand.Rand, ls []string, mode int) []string {
+	out := append([]string{}, ls...)
+	k := 1 + r.Intn(6)
+	for e := 0; e < k; e++ {
+		n := len(out)
+		pos := 0
+		if n > 0 {
+			pos = r.Intn(n + 1)
+		}
+		ln := 1 + r.Intn(4)
+		if r.Intn(8) == 0 {
+			ln = 1 + r.Intn(40)
+		}
+		switch r.Intn(6) {
+		case 0: // insert
+			ins := randLines(r, ln, mode)
+			out = append(out[:pos:pos], append(ins, out[pos:]...)...)
+		case 1: // delete
+			end := min(n, pos+ln)
+			out = append(out[:pos:pos], out[end:]...)
+		case 2: // duplicate a block
+			end := min(n, pos+ln)
+			blk := append([]string{}, out[pos:end]...)
+			at := 0
+			if n > 0 {
+				at = r.Intn(n + 1)
+			}
+			out = append(out[:at:at], append(blk, out[at:]...)...)
+		case 3: // swap two adjacent blocks
+			mid := min(n, pos+ln)
+			end := min(n, mid+1+r.Intn(4))
+			sw := append(append([]string{}, out[mid:end]...), out[pos:mid]...)
+			copy(out[pos:end], sw)
+		case 4: // replace lines
+			end := min(n, pos+ln)
+			for i := pos; i < end; i++ {
+				out[i] = randLines(r, 1, mode)[0]
+			}
+		case 5: // move a block far away
+			end := min(n, pos+ln)
+			blk := append([]string{}, out[pos:end]...)
+			rest := append(out[:pos:pos], out[end:]...)
+			at := 0
+			if len(rest) > 0 {
+				at = r.Intn(len(rest) + 1)
+			}
+			out = append(rest[:at:at], append(blk, rest[at:]...)...)
+		}
+	}
+	return out
+}
+
+func joinText(r *rand.Rand, ls []string) []byte {
+	t := strings.Join(ls, "\n")
+	if len(ls) > 0 && r.Intn(4) != 0 {
+		t += "\n"
+	}
+	return []byte(t)
+}
+
+func randCase(r *rand.Rand, maxLines int) *diffCase {
+	mode := r.Intn(4)
+	n := r.Intn(maxLines + 1)
+	switch r.Intn(4) { // skew towards short texts, keep some long ones
+	case 0:
+		n = r.Intn(12)
+	case 1:
+		n = r.Intn(60)
+	}
+	base := randLines(r, n, mode)
+	var other []string
+	if r.Intn(12) == 0 {
+		other = randLines(r, r.Intn(n+3), mode) // unrelated text
+	} else {
+		other = editLines(r, base, mode)
+	}
+	c := &diffCase{caseNames[r.Intn(len(caseNames))], caseNames[r.Intn(len(caseNames))], joinText(r, base), joinText(r, other), fmt.Sprintf("random-mode%d", mode)}
+	if r.Intn(2) == 0 {
+		c.old, c.new = c.new, c.old
+	}
+	return c
+}
+
+// ---------------------------------------------------------------- independent oracle
+
+// splitKeep cuts a text into lines, each keeping its "\n" (the last one may lack it).
+func splitKeep(b []byte) [][]byte {
+	var out [][]byte
+	for len(b) > 0 {
+		i := bytes.IndexByte(b, '\n')
+		if i < 0 {
+			out = append(out, b)
+			break
+		}
+		out = append(out, b[:i+1])
+		b = b[i+1:]
+	}
+	return out
+}
+
+type oLine struct {
+	tag  byte
+	text []byte // content, with "\n" unless the no-newline marker followed
+}
+
+type oHunk struct {
+	a, b, c, d int
+	body       []oLine
+}
+
+var hunkRe = regexp.MustCompile(`^@@ -(0|[1-9][0-9]*),(0|[1-9][0-9]*) \+(0|[1-9][0-9]*),(0|[1-9][0-9]*) @@\n$`)
+
+const noNL = "\\ No newline at end of file\n"
+
+// parseUnified reads the hunks of a unified diff (after its header), driven by the counts.
+func parseUnified(rest []byte) ([]oHunk, string, string) {
+	ls := splitKeep(rest)
+	var hs []oHunk
+	i := 0
+	for i < len(ls) {
+		m := hunkRe.FindSubmatch(ls[i])
+		if m == nil {
+			return nil, "hunk-header-syntax", fmt.Sprintf("line %d is not a hunk header: %q", i, ls[i])
+		}
+		var h oHunk
+		h.a, _ = strconv.Atoi(string(m[1]))
+		h.b, _ = strconv.Atoi(string(m[2]))
+		h.c, _ = strconv.Atoi(string(m[3]))
+		h.d, _ = strconv.Atoi(string(m[4]))
+		i++
+		ro, rn := h.b, h.d
+		for ro > 0 || rn > 0 {
+			if i >= len(ls) {
+				return nil, "count-mismatch", "hunk body shorter than its counts"
+			}
+			l := ls[i]
+			if len(l) == 0 || l[len(l)-1] != '\n' {
+				return nil, "body-line", "body line without newline"
+			}
+			switch l[0] {
+			case ' ':
+				if ro == 0 || rn == 0 {
+					return nil, "count-mismatch", "context line beyond a count"
+				}
+				ro--
+				rn--
+			case '-':
+				if ro == 0 {
+					return nil, "count-mismatch", "'-' line beyond the old count"
+				}
+				ro--
+			case '+':
+				if rn == 0 {
+					return nil, "count-mismatch", "'+' line beyond the new count"
+				}
+				rn--
+			default:
+				return nil, "body-tag", fmt.Sprintf("unexpected body line %q", l)
+			}
+			ol := oLine{l[0], l[1:]}
+			i++
+			if i < len(ls) && string(ls[i]) == noNL {
+				ol.text = ol.text[:len(ol.text)-1]
+				i++
+			}
+			h.body = append(h.body, ol)
+		}
+		hs = append(hs, h)
+	}
+	return hs, "", ""
+}
+
+// applyHunks applies (rev=false) or reverse-applies (rev=true) the hunks to src.
+func applyHunks(src []byte, hs []oHunk, rev bool) ([]byte, string, string) {
+	ls := splitKeep(src)
+	var out []byte
+	cur := 0
+	for hi, h := range hs {
+		start, cnt := h.a, h.b
+		del, ins := byte('-'), byte('+')
+		if rev {
+			start, cnt = h.c, h.d
+			del, ins = '+', '-'
+		}
+		pos := start
+		if cnt > 0 {
+			if start < 1 {
+				return nil, "start-line-convention", fmt.Sprintf("hunk %d: start line %d with count %d", hi, start, cnt)
+			}
+			pos = start - 1
+		}
+		if pos < cur {
+			return nil, "order-overlap", fmt.Sprintf("hunk %d starts at line index %d before the end %d of the previous one", hi, pos, cur)
+		}
+		if pos+cnt > len(ls) {
+			return nil, "out-of-range", fmt.Sprintf("hunk %d extends beyond the text", hi)
+		}
+		for ; cur < pos; cur++ {
+			out = append(out, ls[cur]...)
+		}
+		for _, l := range h.body {
+			switch l.tag {
+			case ' ', del:
+				if cur >= len(ls) || !bytes.Equal(ls[cur], l.text) {
+					return nil, "apply-mismatch", fmt.Sprintf("hunk %d: line %q not found at index %d", hi, l.text, cur)
+				}
+				if l.tag == ' ' {
+					out = append(out, l.text...)
+				}
+				cur++
+			case ins:
+				out = append(out, l.text...)
+			}
+		}
+		if cur != pos+cnt {
+			return nil, "count-mismatch", fmt.Sprintf("hunk %d consumed %d lines, header says %d", hi, cur-pos, cnt)
+		}
+	}
+	for ; cur < len(ls); cur++ {
+		out = append(out, ls[cur]...)
+	}
+	return out, "", ""
+}
+
+// oracle checks C08 on the implementation's output for one case; returns the number of hunks (-1 if unknown).
+func oracle(res *corr.Result, c *diffCase, out []byte, panicked bool) int {
+	in := c.enc()
+	res.OracleChecked["C08"]++
+	if panicked {
+		res.Violate("C08", in, "diff.Diff panics", "panic")
+		return -1
+	}
+	if bytes.Equal(c.old, c.new) {
+		if len(out) != 0 {
+			res.Violate("C08", in, "non-empty output for byte-identical texts", "equal-nonempty")
+		}
+		return 0
+	}
+	if len(out) == 0 {
+		res.Violate("C08", in, "empty output for different texts", "different-empty")
+		return -1
+	}
+	hdr := "diff " + c.oldName + " " + c.newName + "\n--- " + c.oldName + "\n+++ " + c.newName + "\n"
+	if !bytes.HasPrefix(out, []byte(hdr)) {
+		res.Violate("C08", in, "the three header lines are missing or wrong", "header")
+		return -1
+	}
+	hs, class, what := parseUnified(out[len(hdr):])
+	if class != "" {
+		res.Violate("C08", in, what, class)
+		return -1
+	}
+	if len(hs) == 0 {
+		res.Violate("C08", in, "different texts but no hunk", "no-hunk")
+		return 0
+	}
+	for i, h := range hs {
+		changed := false
+		for _, l := range h.body {
+			if l.tag != ' ' {
+				changed = true
+			}
+		}
+		if !changed {
+			res.Distribution[fmt.Sprintf("note:context-only-hunk(#%d)", min(i, 1))]++ // not part of the property; recorded only
+		}
+	}
+	got, class, what := applyHunks(c.old, hs, false)
+	if class != "" {
+		res.Violate("C08", in, "apply: "+what, class)
+	} else if !bytes.Equal(got, c.new) {
+		res.Violate("C08", in, "applying the hunks to old does not give new", "apply-result")
+	}
+	back, class, what := applyHunks(c.new, hs, true)
+	if class != "" {
+		res.Violate("C08", in, "reverse apply: "+what, "reverse-"+class)
+	} else if !bytes.Equal(back, c.old) {
+		res.Violate("C08", in, "reverse-applying the hunks to new does not give old", "unapply-result")
+	}
+	return len(hs)
+}
+
+// ---------------------------------------------------------------- run
 
 func runDiff(tier string, seed int64, model string, replay string) *corr.Result {
-	return corr.NewResult("diff", tier, seed)
+	res := corr.NewResult("diff", tier, seed)
+	r := rand.New(rand.NewSource(seed))
+	var cases []*diffCase
+	seen := map[string]bool{}
+	add := func(c *diffCase) {
+		k := c.oldName + "\x00" + c.newName + "\x00" + string(c.old) + "\x00" + string(c.new)
+		if !seen[k] {
+			seen[k] = true
+			cases = append(cases, c)
+		}
+	}
+	if replay != "" {
+		c, err := decCase(replay)
+		if err != nil {
+			res.Observations = append(res.Observations, err.Error())
+			res.Disagree(replay, "", err.Error())
+			return res
+		}
+		add(c)
+	} else {
+		l3, l2, nrand, maxLines := 4, 6, 5000, 400
+		if tier == "thorough" {
+			l3, l2, nrand = 5, 7, 150000
+		}
+		if os.Getenv("VERIF_SEARCH") != "" {
+			nrand *= 2
+		}
+		var spaces []string
+		for _, sp := range []struct {
+			alpha []string
+			n     int
+		}{{[]string{"a", "b", "c"}, l3}, {[]string{"a", "b"}, l2}, {[]string{"", "-", "\\ No newline at end of file"}, 3}} {
+			ts := textsOver(sp.alpha, sp.n)
+			for _, a := range ts {
+				for _, b := range ts {
+					add(&diffCase{"old", "new", a, b, "exhaustive"})
+				}
+			}
+			spaces = append(spaces, fmt.Sprintf("all pairs of the %d texts of at most %d lines over %q, with and without final newline", len(ts), sp.n, sp.alpha))
+		}
+		res.Exhaustive = true
+		res.Extra["exhaustive_spaces"] = spaces
+		// golden-test style corner cases
+		for _, p := range [][2]string{{"", "a"}, {"a", ""}, {"a", "a\n"}, {"a\n", "a"}, {"\n", ""}, {"", "\n"}, {"a\n\\ No newline at end of file\n", "a"},
+			{"a\nb\nc\nd\ne\nf\ng\nh\ni\nj\nk\nl\n", "a\nb\nc\nd\ne\nf\ng\nh\ni\nj\nk\nl"}, {"x\ny\nz\na\nb\nc\nd\ne\nf\ng\n", "a\nb\nc\nd\ne\nf\ng\nx\ny\nz\n"}} {
+			add(&diffCase{"old", "new", []byte(p[0]), []byte(p[1]), "corner"})
+		}
+		for i := 0; i < nrand; i++ {
+			add(randCase(r, maxLines))
+		}
+	}
+
+	req := make([]string, 0, len(cases)*2)
+	for _, c := range cases {
+		req = append(req, c.enc())
+	}
+	// the model's own (verified) applier on the model's hunks, for the non-exhaustive cases
+	var chk []int
+	for i, c := range cases {
+		if c.origin != "exhaustive" || i%17 == 0 {
+			chk = append(chk, i)
+			req = append(req, "chk "+corr.Hx(c.old)+" "+corr.Hx(c.new))
+		}
+	}
+	modelOut, err := mdl.Run(model, nil, req, 0)
+	if err != nil {
+		res.Observations = append(res.Observations, "model driver error: "+err.Error())
+		res.Disagree("<driver>", "", err.Error())
+		return res
+	}
+	nontrivial := 0
+	nh := make([]int, len(cases))
+	for i, c := range cases {
+		out, panicked := safeDiff(c)
+		impl := corr.Hx(out)
+		if panicked {
+			impl = "panic"
+		}
+		if impl != modelOut[i] {
+			res.Disagree(req[i], impl, modelOut[i])
+		}
+		nh[i] = oracle(res, c, out, panicked)
+		if !bytes.Equal(c.old, c.new) {
+			nontrivial++
+		}
+		res.Distribution["origin:"+c.origin]++
+		res.Distribution[fmt.Sprintf("hunks=%d", min(nh[i], 5))]++
+		nl := bytes.Count(c.old, []byte("\n")) + bytes.Count(c.new, []byte("\n"))
+		switch {
+		case nl <= 12:
+			res.Distribution["lines<=12"]++
+		case nl <= 100:
+			res.Distribution["lines<=100"]++
+		default:
+			res.Distribution["lines>100"]++
+		}
+		if (len(c.old) > 0 && c.old[len(c.old)-1] != '\n') || (len(c.new) > 0 && c.new[len(c.new)-1] != '\n') {
+			res.Distribution["missing-final-newline"]++
+		}
+	}
+	for j, i := range chk {
+		line := modelOut[len(cases)+j]
+		want := fmt.Sprintf("A=1 U=1 H=%d", nh[i])
+		if nh[i] < 0 {
+			continue
+		}
+		if line != want {
+			res.Disagree(req[len(cases)+j], want, line)
+		}
+		res.Distribution["model-applier-checked"]++
+	}
+	res.Evaluations = len(req)
+	res.DistinctNontrivial = nontrivial
+	res.Rule = "distinct (oldName, old, newName, new) cases with old ≠ new (so that a diff with at least one hunk must be produced); each is run through diff.Diff and the Lean model and the exact output bytes compared; the implementation's output is parsed and applied / reverse-applied by an independent Go patch applier; for the random cases the model's verified applier is also run on the model's hunks and the hunk count compared with the parsed one"
+	for _, i := range []int{0, 1, len(cases) / 2, len(cases) - 1} {
+		if i >= 0 && i < len(cases) {
+			res.Samples = append(res.Samples, map[string]string{"case": req[i], "model": modelOut[i]})
+		}
+	}
+	return res
 }
